@@ -213,7 +213,7 @@ pub fn exec(song: &mut Song, tokens: &Vec<Token>) -> bool {
                 trk!(song).v_on_time = None;
                 let ino = t.data[0].to_i();
                 if ino > 0 {
-                    while trk!(song).v_sub.len() >= ino as usize {
+                    while trk!(song).v_sub.len() <= ino as usize {
                         trk!(song).v_sub.push(0);
                     }
                     trk!(song).v_sub[ino as usize] = value_range(0, t.value_i, 127);
